@@ -415,6 +415,12 @@ func runProgram(req *fnv1.RunFunctionRequest) *fnv1.RunFunctionResponse {
 		for _, o := range namesGiven(req, "k1") {
 			sel["n-"+o] = byName(o)
 		}
+	case "relabel":
+		if _, given := req.GetExtraResources()["k1"]; given {
+			sel["k1"] = byLabel("g")
+		} else {
+			sel["k1"] = byLabel("h")
+		}
 	case "count":
 		n := count
 		if n > p.N {
